@@ -348,3 +348,57 @@ Definition depth_serial (base : nat) : nat := S (S base).
 Definition depth_smp (bases : nat -> nat) (th : nat) : nat := S (S (bases th)).
 Definition depth_smp_unfixed (bases : nat -> nat) (th : nat) : nat :=
   if Nat.eqb th 0%nat then S (S (bases 0%nat)) else S (bases th).
+
+(* ------------------------------------------------------------------------------------------- *)
+(* 7. Footprints as data: what is compared with the footprints DERIVED from the implementation   *)
+(* ------------------------------------------------------------------------------------------- *)
+(* (reads, writes) of an item.  coq/Gen/GenFootC12.v is regenerated on every run of the check from the rebuilt
+   binary (c12sim `footprints`: every work item is run alone from a restored snapshot of all locations - writes =
+   what changed - and re-run with one location perturbed at a time - reads = what influences what it writes). *)
+Definition fp := (list loc * list loc)%type.
+Definition fp_of (it : sitem) : fp := (reads it, writes it).
+Definition subset_b (a b : list loc) : bool := forallb (fun l => mem loc_eqb l b) a.
+Definition same_set_b (a b : list loc) : bool := subset_b a b && subset_b b a.
+Definition fp_same_b (x y : fp) : bool := same_set_b (fst x) (fst y) && same_set_b (snd x) (snd y).
+Fixpoint all2_b {A} (f : A -> A -> bool) (l1 l2 : list A) : bool :=
+  match l1, l2 with
+  | [], [] => true
+  | a :: r1, b :: r2 => f a b && all2_b f r1 r2
+  | _, _ => false
+  end.
+Definition disjoint_b (a b : list loc) : bool := forallb (fun l => negb (mem loc_eqb l b)) a.
+Definition fp_indep_b (x y : fp) : bool :=
+  disjoint_b (snd x) (snd y) && disjoint_b (snd x) (fst y) && disjoint_b (snd y) (fst x).
+Fixpoint pairwise_b {A} (f : A -> A -> bool) (l : list A) : bool :=
+  match l with [] => true | a :: r => forallb (f a) r && pairwise_b f r end.
+
+Definition model_comp_fps (c : cfg) (t : nat) : list fp := map fp_of (concat (smp_cvc_work (prep_vars t (c_vars c)) t)).
+Definition model_collect_fps (c : cfg) (t : nat) : list fp :=
+  map (fun p => fp_of (collect_item p)) (active_vars t (prep_vars t (c_vars c))).
+Definition model_bias_fps (c : cfg) (t : nat) : list fp := map fp_of (smp_bias_work c t).
+
+(* one probe: a configuration at a step, and the footprints derived from the implementation for the items of the
+   component loop, the collection phase and the bias loop (in the order in which the module lists them) *)
+Record probe := mkProbe { p_cfg : cfg; p_t : nat; p_comp : list fp; p_collect : list fp; p_bias : list fp }.
+Definition probe_matches_b (p : probe) : bool :=
+  all2_b fp_same_b (p_comp p) (model_comp_fps (p_cfg p) (p_t p)) &&
+  all2_b fp_same_b (p_collect p) (model_collect_fps (p_cfg p) (p_t p)) &&
+  all2_b fp_same_b (p_bias p) (model_bias_fps (p_cfg p) (p_t p)).
+(* a collection item may depend on a component item only by reading what that component writes *)
+Definition collect_ok_b (k c : fp) : bool := subset_b (snd c) (fst k) || fp_indep_b k c.
+Definition probe_independent_b (p : probe) : bool :=
+  pairwise_b fp_indep_b (p_comp p) && pairwise_b fp_indep_b (p_bias p) && pairwise_b fp_indep_b (p_collect p) &&
+  forallb (fun k => forallb (collect_ok_b k) (p_comp p)) (p_collect p).
+
+(* ------------------------------------------------------------------------------------------- *)
+(* 8. The guard of the bias loop, and the log                                                    *)
+(* ------------------------------------------------------------------------------------------- *)
+(* calc_biases: `if (smp mode == cvcs && !biases_need_main_thread)` the parallel loop, else script then the straight
+   loop; biases_need_main_thread = some active bias has replica_share_freq() > 0 (it needs I/O or MPI) *)
+Definition bias_loop_items (need_main_thread : bool) (c : cfg) (t : nat) (ob : list nat) : list sitem :=
+  if need_main_thread
+  then (if c_use_script c && negb (c_script_after c) then script_items c else []) ++ map bias_item (active_biases t (c_biases c))
+  else pick (smp_bias_work c t) ob.
+
+(* the log of a loop: every item appends its messages when it runs (one proxy->log call per message, serialised) *)
+Definition log_of {A} (msgs : list (list A)) (order : list nat) : list A := concat (pick msgs order).
